@@ -18,7 +18,7 @@ from ..absint import Interp
 from ..link import check_module
 from ..poly import Poly, le, lt, eq
 from ..terms import Terms, reify, plain, match, V, ANY, show, subterms, \
-    mk_cmp, is_none, method_calls, alternatives, stores
+    mk_cmp, is_none, method_calls, alternatives, stores, one_level
 from ..util import calls_in, qual, formals, returns_of, raises_of, \
     raise_name, has_fact, parse_expr
 from .C07 import _loop_of, _backedge_preds
@@ -427,59 +427,103 @@ def r4_retry(program, rep):
         raise AnalysisError("load_application: retry loop")
     w = wl[0]
     head = cfg.loop_head[id(w)]
-    okc = unparse(w.test) in ("unloaded != {} and tries <= n_tries",
-                              "unloaded != {} and tries < n_tries",
-                              "unloaded and tries <= n_tries")
-    inc = [d for d in fl.defs if d.var == "tries" and d.mode == "aug"]
-    body_in = [n for n in cfg.nodes if n.kind == "assume" and n.polarity and
-               unparse(n.ast).startswith("tries <")]
-    okc = okc and len(inc) == 1 and unparse(inc[0].value.value) == "1" and \
-        isinstance(inc[0].value.op, ast.Add) and bool(body_in) and \
-        cfg.must_pass(body_in[0], lambda n: n is inc[0].node,
-                      targets=[head, cfg.exit])
-    init = [d for d in fl.defs if d.var == "tries" and d.mode == "assign"]
-    okc = okc and len(init) == 1 and unparse(init[0].value) == "0"
+    T = Terms(fn)
+    SELF = ("param", "self")
+
+    def kw(name, *dflt):
+        return ("call", ("attr", ("param", fn.args.kwarg.arg), "pop"),
+                (("const", name),) + tuple(dflt), ())
+    APP, NTRIES = kw("app_id"), kw("n_tries")
+    ffs = [c for c in ast.walk(w) if isinstance(c, ast.Call) and
+           call_name(c)[0] == "flood_fill_aplx"]
+    if len(ffs) != 1:
+        raise AnalysisError("load_application: one flood fill per attempt "
+                            "expected")
+    ffn = T.cfg.node_containing(ffs[0])
+    fargs = [T.term(a_, ffn) for a_ in ffs[0].args]
+    fkw = {k.arg: plain(T.term(k.value, ffn)) for k in ffs[0].keywords}
+    if len(fargs) != 1 or fargs[0][0] != "mu":
+        raise AnalysisError("load_application: what each attempt fills")
+    UNL = fargs[0]
+    EMPTY = ("dict", ())
+    facts_in = [(plain(t), p_) for t, p_ in T.all_facts(ffn)]
+    # the loop runs while something is unloaded and attempts remain
+    cnt = [t[2] for t, p_ in T.all_facts(ffn)
+           if p_ and t[0] == "cmp" and t[1] in ("LtE", "Lt") and
+           plain(t[3]) == NTRIES and t[2][0] == "mu"]
+    okc = any((("cmp", "Eq", a_, b_), False) in facts_in
+              for a_, b_ in ((plain(UNL), EMPTY), (EMPTY, plain(UNL)))) and \
+        len(cnt) == 1
+    if okc:
+        CNT = cnt[0]
+        alts = [plain(x) for x in one_level(CNT)]
+        upd = [b_ for i_ in CNT[1].ids for b_ in [T.binds[i_]]
+               if _inside(b_.node.ast, w)]
+        okc = sorted(map(repr, alts)) == sorted(map(repr, [
+            ("const", 0), ("binop", "Add", plain(CNT), ("const", 1))])) or \
+            sorted(map(repr, alts)) == sorted(map(repr, [
+                ("const", 0), ("binop", "Add", ("const", 1), plain(CNT))]))
+        body_in = [n_ for n_ in T.cfg.nodes if n_.kind == "assume" and
+                   n_.polarity and _inside(n_.ast, w) and
+                   T.cfg.dominates(n_, ffn) and
+                   not any(_inside(n_.ast, st_) for st_ in w.body)]
+        okc = okc and len(upd) == 1 and bool(body_in) and T.cfg.must_pass(
+            body_in[-1], lambda n_: n_ is upd[0].node,
+            targets=[T.cfg.loop_head[id(w)], T.cfg.exit])
     rep.check(okc, "C09-R4", inst, "the number of attempts is bounded: the "
               "counter starts at 0, increases on every iteration and bounds "
               "the loop", construct="retry bound", node=w)
-    ff = calls_in(fn, "flood_fill_aplx")
-    okf = len(ff) == 1 and _inside(ff[0], w)
-    if okf:
-        kw = {k.arg: unparse(k.value) for k in ff[0].keywords}
-        okf = [unparse(a) for a in ff[0].args] == ["unloaded"] and \
-            kw == {"app_id": "app_id", "wait": "True"}
+    okf = fkw == {"app_id": APP, "wait": ("const", True)}
     rep.check(okf, "C09-R4", inst, "each attempt fills only what is still "
               "unloaded, under the caller's app id, leaving cores waiting",
               construct="retry fill arguments", node=fn,
               fail="retries do not call flood_fill_aplx(unloaded, "
                    "app_id=app_id, wait=True)")
-    # count mode
+    # count mode: the map is declared empty only when the number of cores
+    # waiting under this app id equals the number requested
+    AM = None
     okn = False
-    for d in fl.defs:
-        if d.var == "unloaded" and d.mode == "assign" and \
-                isinstance(d.value, ast.Dict) and not d.value.keys and \
-                _inside(d.node.ast, w):
-            f = fl.facts(d.node)
-            okn = has_fact(f, "use_count", True) and has_fact(
-                f, "core_count == self.count_cores_in_state('wait', "
-                   "app_id)", True)
-    cc = [d for d in fl.defs if d.var == "core_count"]
-    if len(cc) != 1 or not isinstance(cc[0].value, ast.Call):
-        raise AnalysisError("load_application: the number of cores "
-                            "requested is computed in a form that is not "
-                            "analysed")
-    okn = okn and len(cc) == 1 and unparse(cc[0].value) == \
-        "sum((len(cores) for ts in six.itervalues(application_map) for " \
-        "cores in six.itervalues(ts)))"
-    rep.check(okn, "C09-R4", inst, "count mode: done iff the number of "
-              "cores waiting under this app id equals the number of cores "
-              "requested", construct="count mode", node=fn)
-    # per-core mode: the map for the next attempt is rebuilt from the
-    # still-unloaded one, level by level, each level's container created
-    # afresh inside its own loop
-    T = Terms(fn)
+    n_empty = 0
+    for b_ in T.binds:
+        if b_.var != UNL[1].var or b_.mode != "assign" or \
+                not _inside(b_.node.ast, w) or \
+                plain(T._bind_term(b_)) != EMPTY:
+            continue
+        n_empty += 1
+        f = [(plain(t), p_) for t, p_ in T.all_facts(b_.node)]
+        WAITING = ("call", ("attr", SELF, "count_cores_in_state"),
+                   (("const", "wait"), APP), ())
+        eqs = [t for t, p_ in f if p_ and t[0] == "cmp" and t[1] == "Eq" and
+               WAITING in (t[2], t[3])]
+        okn = (kw("use_count", ("const", True)), True) in f and \
+            len(eqs) == 1
+        if okn:
+            CC = eqs[0][3] if eqs[0][2] == WAITING else eqs[0][2]
+            m_ = match(("call", ("global", "sum"), ((
+                "genexp", ("call", ("global", "len"), (V("c"),), ()),
+                V("g")),), ()), CC)
+            okn = m_ is not None and len(m_["g"]) == 2
+            if okn:
+                (i1, c1), (i2, c2) = m_["g"]
+                okn = not c1 and not c2 and i1[0] == "values" and \
+                    i2 == ("values", ("elem", i1)) and \
+                    m_["c"] == ("elem", i2)
+                AM = i1[1] if okn else None
+    deferred = None
+    if n_empty == 0:
+        deferred = ("load_application: where the count mode declares "
+                    "everything loaded was not found")
+    elif n_empty == 1 and not okn and not any(
+            st_[0] == "call" and st_[1] == ("global", "sum")
+            for t, p_ in f for st_ in subterms(t)):
+        deferred = ("load_application: the number of cores requested is "
+                    "computed in a form that is not analysed")
+    else:
+        rep.check(okn and n_empty == 1, "C09-R4", inst, "count mode: done "
+                  "iff the number of cores waiting under this app id equals "
+                  "the number of cores requested", construct="count mode",
+                  node=fn)
     from ..terms import SITES
-    SELF = ("param", "self")
 
     def site_node(t):
         return SITES.get(t[1]) if t[0] == "new" else None
@@ -582,10 +626,12 @@ def r4_retry(program, rep):
             if c is None:
                 return False
             c, p_ = (c[1], False) if c[0] == "not" else (c, True)
+            LEN = ("call", ("global", "len"), (X,), ())
             return (c, p_) in ((X, True),
-                               (mk_cmp("Lt", ("const", 0),
-                                       ("call", ("global", "len"), (X,),
-                                        ())), True)) or \
+                               (mk_cmp("Lt", ("const", 0), LEN), True),
+                               (mk_cmp("LtE", ("const", 1), LEN), True),
+                               (mk_cmp("Eq", LEN, ("const", 0)), False),
+                               (mk_cmp("Eq", ("const", 0), LEN), False)) or \
                 (plain(c), p_) == (mk_cmp("Eq", ("call", ("global", "len"),
                                                  (plain(X),), ()),
                                           ("const", 0)), False)
@@ -596,27 +642,47 @@ def r4_retry(program, rep):
                   "own chip and binary", construct="recomputed map", node=w)
     # after the loop
     okr = False
+    UNL_after = None
     for r in raises_of(fn):
-        if raise_name(r) == "SpiNNakerLoadingError":
-            f = fl.facts(cfg.node_of(r))
-            okr = has_fact(f, "unloaded != {}", True) and \
-                not _inside(r, w) and [unparse(a) for a in r.exc.args] == \
-                ["unloaded"]
+        if raise_name(r) == "SpiNNakerLoadingError" and not _inside(r, w):
+            rn = T.cfg.node_of(r)
+            args = [T.term(a_, rn) for a_ in r.exc.args]
+            before = [(plain(t), p_) for t, p_ in T.all_facts(
+                T.cfg.loop_head[id(w)])]
+            f = [x for x in [(plain(t), p_) for t, p_ in T.all_facts(rn)]
+                 if x not in before]
+            okr = len(args) == 1 and args[0][0] == "mu" and \
+                args[0][1].var == UNL[1].var and any(
+                    (("cmp", "Eq", a_, b_), False) in f
+                    for a_, b_ in ((plain(args[0]), EMPTY),
+                                   (EMPTY, plain(args[0])))) and \
+                len(f) == 1
+            UNL_after = args[0]
     rep.check(okr, "C09-R4", inst, "SpiNNakerLoadingError(unloaded) is "
               "raised iff something is still unloaded after the loop",
               construct="loading error", node=fn)
-    ss = [c for c in calls_in(fn, "send_signal")]
-    oks = len(ss) == 1 and [unparse(a) for a in ss[0].args] == [
-        "'start'", "app_id"]
+    ss = [c for c in ast.walk(fn) if isinstance(c, ast.Call) and
+          call_name(c)[0] == "send_signal"]
+    oks = len(ss) == 1 and not _inside(ss[0], w)
     if oks:
-        sn = cfg.node_containing(ss[0])
-        f = fl.facts(sn)
-        oks = has_fact(f, "wait", False) and \
-            has_fact(f, "unloaded != {}", False) and not _inside(ss[0], w)
+        sn = T.cfg.node_containing(ss[0])
+        sargs = [plain(T.term(a_, sn)) for a_ in ss[0].args]
+        before = [(plain(t), p_) for t, p_ in T.all_facts(
+            T.cfg.loop_head[id(w)])]
+        f = [x for x in [(plain(t), p_) for t, p_ in T.all_facts(sn)]
+             if x not in before]
+        empty_known = UNL_after is not None and any(
+            (("cmp", "Eq", a_, b_), True) in f
+            for a_, b_ in ((plain(UNL_after), EMPTY),
+                           (EMPTY, plain(UNL_after))))
+        oks = sargs == [("const", "start"), APP] and \
+            (kw("wait"), False) in f and empty_known and len(f) == 2
     rep.check(oks, "C09-R4", inst, "the start signal is sent, under the "
               "caller's app id, iff not asked to wait and only after "
               "everything was found loaded", construct="start signal",
               node=fn)
+    if deferred:
+        raise AnalysisError(deferred)
     rep.floor("C09-R4", 9)
 
 
